@@ -363,6 +363,8 @@ def _occ_pair(s, P, Rc):
         M, ix = m.a
         if M.op == "sub" and M.a[1].op == "tuple" and len(M.a[1].a) == 3 and M.a[1].a[2].op == "const" and all(z.op == "slice" for z in M.a[1].a[:2]):
             return (root(M.a[0]), int(M.a[1].a[2].a[0])), ix
+        if M.op == "sub" and M.a[1].op == "tuple" and len(M.a[1].a) == 2 and M.a[1].a[1].op == "const" and (M.a[1].a[0].op == "ext" and "Ellipsis" in M.a[1].a[0].a[0] or (M.a[1].a[0].op == "const" and M.a[1].a[0].a[0] is Ellipsis)):
+            return (root(M.a[0]), int(M.a[1].a[1].a[0])), ix  # O_PR[..., L]: the same layer of the 3-d array
         if root(M) is not None:
             return (root(M), None), ix
         return None
